@@ -204,7 +204,14 @@ impl Kind {
 
 #[derive(Debug, Clone, Serialize, Deserialize)]
 pub enum Step {
-    Submit { kind: Kind, res: u16, cap: u16 },
+    Submit {
+        kind: Kind,
+        res: u16,
+        cap: u16,
+        /// receive / accept with the poll-first flag, as compio-net sets it after the socket was seen empty
+        #[serde(default)]
+        pf: bool,
+    },
     Feed { res: u16, n: u16 },
     CloseEnd { res: u16 },
     Connect,
@@ -507,7 +514,7 @@ impl Lab {
 
     // ---------------------------------------------------------------- steps
 
-    fn submit(&mut self, kind: Kind, res_raw: u16, cap_raw: u16) -> R<()> {
+    fn submit(&mut self, kind: Kind, res_raw: u16, cap_raw: u16, pf: bool) -> R<()> {
         if self.p.is_none() || self.ops.len() >= 14 {
             return Ok(());
         }
@@ -574,7 +581,12 @@ impl Lab {
                         rec.buf_id = Some(buf_id);
                         rec.buf_ptr = b.ptr();
                         rec.cap = cap;
-                        push!(Recv::new(fd, b, RecvFlags::empty()), |op: Recv<TBuf, Fd>, _ok: bool| Payload::Buf(op.into_inner()))
+                        let mut rop = Recv::new(fd, b, RecvFlags::empty());
+                        if pf {
+                            compio_driver::PollFirst::poll_first(&mut rop);
+                            self.label("poll-first");
+                        }
+                        push!(rop, |op: Recv<TBuf, Fd>, _ok: bool| Payload::Buf(op.into_inner()))
                     }
                     Kind::ReadPipe => {
                         let cap = mono_range(cap_raw, 1, 48);
@@ -606,7 +618,12 @@ impl Lab {
             Kind::Accept => {
                 let Some(fd) = self.listener.clone() else { return Ok(()) };
                 rec.res = 3;
-                push!(Accept::new(fd), |op: Accept<Fd>, ok: bool| {
+                let mut aop = Accept::new(fd);
+                if pf {
+                    compio_driver::PollFirst::poll_first(&mut aop);
+                    self.label("poll-first");
+                }
+                push!(aop, |op: Accept<Fd>, ok: bool| {
                     if !ok {
                         return Payload::None;
                     }
@@ -1624,7 +1641,7 @@ fn run_timed(case: &Case, mode: Mode) -> Outcome {
 fn run_inner(lab: &mut Lab, case: &Case) -> R<()> {
     for step in &case.steps {
         match *step {
-            Step::Submit { kind, res, cap } => lab.submit(kind, res, cap)?,
+            Step::Submit { kind, res, cap, pf } => lab.submit(kind, res, cap, pf)?,
             Step::Feed { res, n } => lab.feed(res, n),
             Step::CloseEnd { res } => lab.close_end(res),
             Step::Connect => lab.connect()?,
@@ -1823,7 +1840,7 @@ fn kind_strategy(mode: Mode) -> SBoxedStrategy<Kind> {
 }
 
 fn step_strategy(mode: Mode) -> SBoxedStrategy<Step> {
-    let submit = (kind_strategy(mode), any::<u16>(), any::<u16>()).prop_map(|(kind, res, cap)| Step::Submit { kind, res, cap });
+    let submit = (kind_strategy(mode), any::<u16>(), any::<u16>(), prop_oneof![2 => Just(false), 1 => Just(true)]).prop_map(|(kind, res, cap, pf)| Step::Submit { kind, res, cap, pf });
     let feed = (any::<u16>(), any::<u16>()).prop_map(|(res, n)| Step::Feed { res, n });
     let close = any::<u16>().prop_map(|res| Step::CloseEnd { res });
     let gate = any::<u16>().prop_map(|job| Step::OpenGate { job });
@@ -1849,8 +1866,8 @@ pub fn strategy(mode: Mode) -> SBoxedStrategy<Case> {
 }
 
 pub fn regressions(mode: Mode) -> Vec<(&'static str, Case)> {
-    let recv = |res: u16| Step::Submit { kind: Kind::Recv, res, cap: 30000 };
-    let sub = |kind: Kind| Step::Submit { kind, res: 0, cap: 20000 };
+    let recv = |res: u16| Step::Submit { kind: Kind::Recv, res, cap: 30000, pf: false };
+    let sub = |kind: Kind| Step::Submit { kind, res: 0, cap: 20000, pf: false };
     let mut v = vec![];
     match mode {
         Mode::C02 => {
@@ -1873,7 +1890,7 @@ pub fn regressions(mode: Mode) -> Vec<(&'static str, Case)> {
                             Step::Poll { block: false },
                             recv(0),
                             recv(40000),
-                            Step::Submit { kind: Kind::ReadPipe, res: 0, cap: 30000 },
+                            Step::Submit { kind: Kind::ReadPipe, res: 0, cap: 30000, pf: false },
                             Step::Flush,
                             Step::Feed { res: 0, n: 20000 },
                             Step::Feed { res: 30000, n: 20000 },
@@ -1892,6 +1909,22 @@ pub fn regressions(mode: Mode) -> Vec<(&'static str, Case)> {
                     v.push((
                         "token-cancel-middle-of-three",
                         Case { iour, cap_ix, pool_ix: 0, steps: vec![recv(0), recv(0), recv(0), Step::CancelToken { op: 30000 }, Step::Poll { block: false }] },
+                    ));
+                    // former finding: a poll-first accept / receive cancelled in the submission batch that carries it
+                    // (the kernel answered ENOENT and the operation stayed pending)
+                    v.push((
+                        "token-cancel-poll-first-same-batch",
+                        Case {
+                            iour,
+                            cap_ix,
+                            pool_ix: 0,
+                            steps: vec![
+                                Step::Submit { kind: Kind::Accept, res: 0, cap: 0, pf: true },
+                                Step::Submit { kind: Kind::Recv, res: 0, cap: 30000, pf: true },
+                                Step::CancelToken { op: 0 },
+                                Step::CancelToken { op: 40000 },
+                            ],
+                        },
                     ));
                     // former finding (fixed 433735c): cancel lost when the submission queue is full
                     v.push(("drop-key-with-full-sq", Case { iour, cap_ix, pool_ix: 0, steps: vec![recv(0), Step::Cancel { op: 0 }] }));
